@@ -1187,6 +1187,8 @@ func ruleTimeoutParser(c *Ctx, r1, r2, r3 string) {
 			}
 		}
 	})
+	// the header value may be handed to a helper that decodes it: its parameter stands for the same string
+	isHdr := func(v ssa.Value) bool { return v != nil && hdr != nil && (v == hdr || origin(v) == hdr) }
 	if hdr == nil {
 		c.fail(r1, name+": reads the grpc-timeout header", posOf(w, fn), "the parser does not read a value of the grpc-timeout key")
 		return
@@ -1243,9 +1245,9 @@ func ruleTimeoutParser(c *Ctx, r1, r2, r3 string) {
 			okIdx := false
 			switch ix := lk.Index.(type) {
 			case *ssa.Index:
-				okIdx = ix.X == hdr
+				okIdx = isHdr(ix.X)
 			case *ssa.Lookup:
-				okIdx = ix.X == hdr
+				okIdx = isHdr(ix.X)
 			}
 			okGuard := false
 			for _, f := range boolFactsAt(mul) {
@@ -1311,9 +1313,9 @@ func ruleTimeoutParser(c *Ctx, r1, r2, r3 string) {
 				okIdx := false
 				switch ix := hc.Call.Args[0].(type) {
 				case *ssa.Index:
-					okIdx = ix.X == hdr
+					okIdx = isHdr(ix.X)
 				case *ssa.Lookup:
-					okIdx = ix.X == hdr
+					okIdx = isHdr(ix.X)
 				}
 				okGuard := false
 				for _, f := range boolFactsAt(mul) {
@@ -1374,10 +1376,10 @@ func ruleTimeoutParser(c *Ctx, r1, r2, r3 string) {
 			}
 			if kk, isKK := constInt(y); isKK {
 				// x = hdr[len-1]
-				if lk, isL := x.(*ssa.Lookup); isL && lk.X == hdr {
+				if lk, isL := x.(*ssa.Lookup); isL && isHdr(lk.X) {
 					ch = kk
 				}
-				if ix, isI := x.(*ssa.Index); isI && ix.X == hdr {
+				if ix, isI := x.(*ssa.Index); isI && isHdr(ix.X) {
 					ch = kk
 				}
 			}
@@ -1408,11 +1410,11 @@ func ruleTimeoutParser(c *Ctx, r1, r2, r3 string) {
 		default:
 			return
 		}
-		if xv != hdr {
+		if !isHdr(xv) {
 			return
 		}
 		if b, ok := iv.(*ssa.BinOp); ok && b.Op == token.SUB {
-			if lc, ok := b.X.(*ssa.Call); ok && calleeName(lc) == "builtin.len" && lc.Call.Args[0] == hdr {
+			if lc, ok := b.X.(*ssa.Call); ok && calleeName(lc) == "builtin.len" && isHdr(lc.Call.Args[0]) {
 				if k, _ := constInt(b.Y); k == 1 {
 					okLast = true
 				}
@@ -1440,7 +1442,7 @@ func ruleTimeoutParser(c *Ctx, r1, r2, r3 string) {
 	c.check(okP, r3, name+": unsigned base-10 parse", w.At(parse), pn+"(digits, 10, 64)", pn+" accepts a sign (and, for base 0, prefixes/underscores): '-1S' yields a negative duration and expires at once, '+5S' is accepted although malformed")
 	// argument = hdr[:len-1]
 	okArg := false
-	if sl, ok := parse.Call.Args[0].(*ssa.Slice); ok && sl.X == hdr && sl.Low == nil {
+	if sl, ok := parse.Call.Args[0].(*ssa.Slice); ok && isHdr(sl.X) && sl.Low == nil {
 		if b, ok := sl.High.(*ssa.BinOp); ok && b.Op == token.SUB {
 			if k, _ := constInt(b.Y); k == 1 {
 				okArg = true
@@ -1457,7 +1459,7 @@ func ruleTimeoutParser(c *Ctx, r1, r2, r3 string) {
 		}
 		lc, isL := x.(*ssa.Call)
 		k, isK := constInt(y)
-		if !isL || !isK || calleeName(lc) != "builtin.len" || lc.Call.Args[0] != hdr {
+		if !isL || !isK || calleeName(lc) != "builtin.len" || !isHdr(lc.Call.Args[0]) {
 			continue
 		}
 		switch op {
@@ -1484,7 +1486,7 @@ func ruleTimeoutParser(c *Ctx, r1, r2, r3 string) {
 	// parse error -> false
 	errV := extractOf(parse, 1)
 	okErr := false
-	for _, ret := range returnsOf(fn) {
+	for _, ret := range w.returnsThrough(fn) {
 		t := returnTuple(ret)
 		for _, f := range factsAt(ret) {
 			if x, op, y, ok := cmpFact(f); ok && op == token.NEQ && x == errV && isNilConst(y) {
@@ -1495,7 +1497,7 @@ func ruleTimeoutParser(c *Ctx, r1, r2, r3 string) {
 	c.check(okErr, r3, name+": parse failure rejects the header", w.At(parse), "err != nil -> (0, false)", "a failed numeric parse does not reject the header")
 	// every (x, true) return is either the product or the saturated maximum
 	pv := extractOf(parse, 0)
-	for _, ret := range returnsOf(fn) {
+	for _, ret := range w.returnsThrough(fn) {
 		t := returnTuple(ret)
 		if t[1] == nil || !isConstBool(t[1], true) {
 			continue
@@ -1540,7 +1542,7 @@ func ruleTimeoutParser(c *Ctx, r1, r2, r3 string) {
 	if guardIf != nil {
 		// the other edge saturates
 		sat := false
-		for _, ret := range returnsOf(fn) {
+		for _, ret := range w.returnsThrough(fn) {
 			t := returnTuple(ret)
 			for _, f := range factsAt(ret) {
 				if f.Cond == guardIf.Cond {
